@@ -76,10 +76,10 @@ s = '''# Seeded breakages
 
 Each directory holds source changes written by independent sub-agents that were given only the text of that
 property and a scratch worktree (nothing from /verif): `patchN.diff`, `demoN.md` (what breaks, what is needed for it
-to show, a throw-away demonstration), `metaN.json`; later waves carry the prefix `w2-` ... `w7-` (the seventh wave has `w7-demoN_test.go` and `w7-notes.md` instead of `demoN.md`).
+to show, a throw-away demonstration), `metaN.json`; later waves carry the prefix `w2-` ... `w8-` (the seventh and eighth wave have `w7-demoN_test.go` / `w8-demoN_test.go` and `-notes.md` instead of `demoN.md`).
 Every patch compiles and passes the unedited test suite. `RESULTS*.txt` hold the output of
 `scripts/seedcheck.sh <patch> <ID>` (quick tier of the property's own check against a scratch worktree with the
-patch applied) on the current tree; `scripts/seeded_matrix_wave{1,2,3,4,5,6,7}.sh` regenerate them, this file is regenerated by
+patch applied) on the current tree; `scripts/seeded_matrix_wave{1,2,3,4,5,6,7,8}.sh` regenerate them, this file is regenerated by
 `scripts/seeded_readme.py`.
 
 '''
@@ -89,7 +89,8 @@ for title, prefix, fname in (('First wave (18 properties, 54 patches)', '', 'RES
                              ('Fourth wave (8 properties, 24 patches; asked for subtler changes)', 'w4-', 'RESULTS-wave4.txt'),
                              ('Fifth wave (8 properties, 24 patches; asked for synchronisation mistakes)', 'w5-', 'RESULTS-wave5.txt'),
                              ('Sixth wave (8 properties, 24 patches; concurrency and ordering mistakes)', 'w6-', 'RESULTS-wave6.txt'),
-                             ('Seventh wave (8 properties, 16 patches; history, ordering and boundary dependent changes)', 'w7-', 'RESULTS-wave7.txt')):
+                             ('Seventh wave (8 properties, 16 patches; history, ordering and boundary dependent changes)', 'w7-', 'RESULTS-wave7.txt'),
+                             ('Eighth wave (4 properties, 8 patches; history and sequence dependent changes)', 'w8-', 'RESULTS-wave8.txt')):
     t, c, n = table(prefix, fname)
     s += f'## {title}\n\n{c} of {n} caught by the quick tier of the own check.\n\n{t}\n'
 open(os.path.join(ROOT, 'README.md'), 'w').write(s)
